@@ -193,6 +193,53 @@ Definition properties_of (tp : tagproc) (c : comp) : list property :=
 Definition pr_obs (p : property) : string * string * string * targs :=
   (pr_field p, pr_tag p, pr_val p, pr_args p).
 
+(* ---- the value a logger point receives --------------------------------------------------------------
+   container/processors/logger_aware_post_processors.go PostProcessProperties, for a property of tag `logger`
+   whose field type is syslog.Logger:
+       pref := TagStr
+       if pref == "" { if Args().Has("embed") { pref = Holder.String() } else { pref = Holder.Meta.String() } }
+       field = syslog.Pref(pref)                       (one shared logger per prefix)
+   component_definition/holder.go: Holder.String() of the component's own holder is Meta.String() (the component
+   name); the holder of an entered embedded struct is  <holder of the enclosing struct>.Embed(<Type.Name()>).
+   The name of an anonymous field IS its type's name; struct types built by reflect.StructOf have no name
+   ([named] = false: Type.Name() = "").
+   So the prefix is a function of (component name, tag value, arguments) alone - unless the tag asks for the
+   position with the `embed` argument and gives no prefix of its own. *)
+
+Definition embed_step (named : bool) (n : string) : string :=
+  String.append ".Embed(" (String.append (if named then n else EmptyString) ")").
+
+(* Holder.String() of the struct that declares the field at [p] (p = names from the component down) *)
+Definition holder_string (comp : string) (named : bool) (p : path) : string :=
+  String.append comp (String.concat EmptyString (map (embed_step named) (removelast p))).
+
+Definition is_empty (s : string) : bool := match s with EmptyString => true | _ => false end.
+
+(* the tag asks for the declaring struct's position: no prefix of its own and the `embed` argument *)
+Definition wants_position (val : string) (args : targs) : bool := is_empty val && has_arg "Embed" args.
+
+(* what the same tag yields when the field is declared directly on the component *)
+Definition logger_direct (comp val : string) : string := if is_empty val then comp else val.
+
+Definition logger_pref (comp : string) (named : bool) (pr : property) : string :=
+  if wants_position (pr_val pr) (pr_args pr) then holder_string comp named (pr_path pr)
+  else logger_direct comp (pr_val pr).
+
+Definition kind_is_logger (k : fkind) : bool := match k with KLogger => true | _ => false end.
+
+(* the logger points of a component: the properties of processor [tp] (the logger processor) on fields of type
+   syslog.Logger, each with the prefix of the logger it receives *)
+Definition logger_fields (c : comp) : list sfield := filter (fun f => kind_is_logger (sf_kind f)) (scan_fields c).
+
+Definition logger_points (tp : tagproc) (c : comp) : list property :=
+  map (default_required tp) (filter_map (extract tp) (logger_fields c)).
+
+(* field, tag value, arguments, received prefix *)
+Definition logger_obs (comp : string) (named : bool) (pr : property) : string * string * targs * string :=
+  (pr_field pr, pr_val pr, pr_args pr, logger_pref comp named pr).
+
+Definition position_free (pr : property) : bool := negb (wants_position (pr_val pr) (pr_args pr)).
+
 (* ---- write footprint: the fields some processor holds a property for -------------------------------- *)
 
 Definition footprint (procs : list tagproc) (c : comp) : list path :=
